@@ -2,6 +2,9 @@
 # tools/reseed.sh [name-pattern]  - regression over every kept seeded change: apply it to a scratch copy of the base
 # it was written against, run the quick check(s) that caught it (meta.json results with rc=1), report any that no
 # longer does.  Nothing is written under /verif/seeded.
+# the checks run from a scratch copy of /verif, so that build/, replays/ and evidence/ of the checkout stay as they are
+V=/var/tmp/verif-reseed-$$; rm -rf "$V"; mkdir -p "$V"
+(cd /verif && tar --exclude=build --exclude=replays --exclude=.git --exclude=seeded --exclude=benign -cf - .) | tar -xf - -C "$V"
 cd /verif
 for d in seeded/${1:-*}/; do
   name=$(basename $d)
@@ -19,10 +22,11 @@ print(' '.join(sorted({r['check'] for r in m['results'] if r['rc']==1})))")
   [ $ok -eq 0 ] && { echo "$name: PATCH-FAILED"; continue; }
   res=""
   for c in $checks; do
-    out=$(VERIF_REPO=$S ./check $c 2>&1); rc=$?
+    out=$(cd "$V" && VERIF_REPO=$S ./check $c 2>&1); rc=$?
     res="$res $c:rc=$rc"
   done
   case "$res" in *rc=1*) echo "$name:$res";; *) echo "$name:$res  <-- NO LONGER DETECTED";; esac
   rm -rf $S
 done
+rm -rf "$V"
 echo DONE
